@@ -20,6 +20,9 @@ pub struct WorldParams {
     /// mirror in-root names outside (decoys) so that escapes land
     pub decoys: bool,
     pub max_entries: usize,
+    /// generate link chains of 20..41 links (only C01 can judge them: the
+    /// kernel's own answer is unstable in that band)
+    pub long_chains: bool,
 }
 
 impl WorldParams {
@@ -34,6 +37,7 @@ impl WorldParams {
             loops: rng.chance(1, 2),
             decoys: true,
             max_entries: 40,
+            long_chains: false,
         }
     }
 }
@@ -151,8 +155,12 @@ pub fn gen_world(rng: &mut Rng, p: &WorldParams) -> WorldSpec {
                 spec.push(Entry::link(&full, &t));
                 existing.push((path, Kind::Symlink(t)));
             } else if depth < p.depth && rng.chance(6, 10) {
-                let mode = *rng.pick(&[0o755u32, 0o755, 0o755, 0o711, 0o700, 0o1777]);
-                spec.push(Entry::dir(&full).mode(mode));
+                let mode = *rng.pick(&[0o755u32, 0o755, 0o755, 0o755, 0o711, 0o700, 0o1777, 0o2775]);
+                let mut e = Entry::dir(&full).mode(mode);
+                if mode & 0o2000 != 0 {
+                    e = e.own(0, 1000); // setgid directory: children inherit the group and the bit
+                }
+                spec.push(e);
                 existing.push((path.clone(), Kind::Dir));
                 dirs.push((path, depth + 1));
             } else if p.fifos && rng.chance(1, 8) {
@@ -185,7 +193,7 @@ pub fn gen_world(rng: &mut Rng, p: &WorldParams) -> WorldSpec {
             }
             2 => {
                 // chain of length n ending at an existing entry (or dangling)
-                let n = *rng.pick(&[2usize, 5, 20, 38, 39, 40]);
+                let n = if p.long_chains { *rng.pick(&[2usize, 5, 20, 38, 39, 40]) } else { *rng.pick(&[2usize, 3, 5, 8]) };
                 let end = if existing.is_empty() || rng.chance(1, 5) { "nothing".to_string() } else { format!("/{}", rng.pick(&existing).0) };
                 for i in 0..n {
                     let tgt = if i + 1 == n { end.clone() } else { format!("ch{}", i + 1) };
